@@ -220,12 +220,7 @@ def r6_line_merge(ctx):
 
 
 def run(ctx):
-    r1_commit_after_success(ctx)
-    r2_compact(ctx)
-    r3_clones(ctx)
-    r4_resume_feeds_result(ctx)
-    r5_persistent_locals(ctx)
-    r6_line_merge(ctx)
+    ctx.run_rules([r1_commit_after_success, r2_compact, r3_clones, r4_resume_feeds_result, r5_persistent_locals, r6_line_merge])
     return (
         "Decides the ordering/commit clauses behind 'a rejected line leaves the session exactly as it was' and the alignment plumbing: session "
         "fields and the process are touched only after the compile succeeded, compaction precedes compilation and re-indexes bindings and locals by "
